@@ -49,9 +49,9 @@ CHECKS.update({
 
 CHECKS.update({
  "C20": dict(engine="E5-wiresim", level="exploration", ref="4 (C20), 2.3 (E5)",
-   note="The TCP socket is replaced by a simulated byte stream implementing Read/Write whose every call draws its behaviour (fragment size, short write, EINTR, EOF) from the seed; framing, encoding and decoding are the real axmosdb::tcp code. The worker runs under a 3 GiB address-space limit so that an unbounded allocation kills the worker, which the supervisor reports with the scenario as replay. WouldBlock is not injected (the server uses blocking sockets). Result sets with zero columns but non-zero rows are not generated (they carry no bytes per row and are rejected as malformed since fix f81eb12).",
-   technique="deterministic simulation of the byte stream: seeded fragmentation / short writes / EINTR / EOF-at-any-offset / garbage and header-biased mutation over the real framing and codec, round-trip equality oracle, bounded-allocation oracle via rlimit",
-   text="Seeded stream scenarios: every Request/Response variant with generated field values (empty, non-ASCII, multi-megabyte strings, result sets 0..400 rows x 0..8 columns) must be received exactly as sent under fragmentation, short writes and EINTR with nothing left over in the stream; truncated, random, oversize-prefixed and mutated frames must yield a protocol error (or a well-formed message), never a panic, hang or unbounded allocation."),
+   note="The TCP socket is replaced by a simulated byte stream implementing Read/Write whose every call draws its behaviour (fragment size, short write, EINTR, EOF) from the seed; framing, encoding and decoding are the real axmosdb::tcp code. The worker runs under a 3 GiB address-space limit so that an unbounded allocation kills the worker, which the supervisor reports with the scenario as replay. WouldBlock is not injected (the server uses blocking sockets). Every eighth run index is a whole-database history (engine E1) issued through the server: the server binary's source file is compiled into the simulator as a module and its guarded export gives one iteration of the client loop (receive a request, process_request, send the response) over any Read/Write pair; each simulated connection has a BufReader and a BufWriter over simulated streams as the real loop has over the socket. The accept loop, the TcpStream-specific shell of the client loop and its timeouts are not run. Result sets with zero columns but non-zero rows are not generated (they carry no bytes per row and are rejected as malformed since fix f81eb12).",
+   technique="deterministic simulation of the byte stream: seeded fragmentation / short writes / EINTR / EOF-at-any-offset / garbage and header-biased mutation over the real framing and codec, round-trip equality oracle, bounded-allocation oracle via rlimit; plus seeded whole-database histories driven through the real server request loop over simulated streams (pipelined frames, clients vanishing mid-transaction with or without a broken frame), every rendered response compared with a snapshot-isolation reference model",
+   text="Seeded stream scenarios: every Request/Response variant with generated field values (empty, non-ASCII, multi-megabyte strings, result sets 0..400 rows x 0..8 columns) must be received exactly as sent under fragmentation, short writes and EINTR with nothing left over in the stream; truncated, random, oversize-prefixed and mutated frames must yield a protocol error (or a well-formed message), never a panic, hang or unbounded allocation. Server side: histories of sessions (BEGIN / statements / COMMIT / ROLLBACK), autocommit statements, DDL, failing statements, VACUUM, ANALYZE, EXPLAIN, CLOSE + OPEN and vanishing clients are sent as requests through process_request; the rows the server renders (including empty results, NULLs and text ending in blanks, quotes, backslashes or non-ASCII characters) must equal the model's rows, a Rows response must be as wide as its header, a vanished client's transaction must leave no effects, and every request byte must be consumed."),
 })
 
 CHECKS.update({
@@ -139,6 +139,7 @@ def main():
             {"name": "E3b-btreesim", "path": "/verif/sim/src/btsim.rs", "serves_properties": ["C10", "C11"], "kind_free_text": "storage-level simulator of the B+tree over a real pager through the verif facade: BTreeMap model, structural and page-ownership audits"},
             {"name": "E4-threadsim", "path": "/verif/sim/src/threadsim.rs", "serves_properties": ["C14"], "kind_free_text": "real threads under a baton scheduler installed through hook H3: one runnable thread at a time, seeded choice at every lock / latch / queue / job-wait point"},
             {"name": "E5-wiresim", "path": "/verif/sim/src/wiresim.rs", "serves_properties": ["C20"], "kind_free_text": "simulated byte stream (fragmentation, short writes, EINTR, EOF, garbage) under the real framing and codec"},
+            {"name": "E5b-served", "path": "/verif/sim/src/served.rs", "serves_properties": ["C20"], "kind_free_text": "the real server request loop body over simulated per-connection streams; carries E1 histories (transport of the engine wrapper)"},
             {"name": "E3a-walsim", "path": "/verif/sim/src/walsim.rs", "serves_properties": ["C17"], "kind_free_text": "storage-level simulator of the write-ahead log over the verif facade, with crash at every I/O prefix"},
             {"name": "E2-crashsim", "path": "/verif/sim/src/crashsim.rs", "serves_properties": [p for p, c in CHECKS.items() if c["engine"] == "E2-crashsim"], "kind_free_text": "E1 plus the I/O tap: every prefix of a history's file mutations is materialised as a disk image, opened with the real recovery and judged against the acknowledged model state; nested for recovery's own I/O"},
             {"name": "E1-sqlsim", "path": "/verif/sim/src/sqlsim.rs", "serves_properties": [p for p, c in CHECKS.items() if c["engine"] == "E1-sqlsim"], "kind_free_text": "whole-database history simulator: seeded event sequences over sessions / autocommit / batches / vacuum / checkpoint / reopen, reference SI model, result and state oracles"},
